@@ -129,6 +129,14 @@ def batch_main(pid, master, tier, start, count, hashseed):
     if getattr(prop, "NEEDS_REFSERVER", False):
         from . import refserver
         refserver.start(hashseed + 7919)
+    if start == 0:
+        # pinned regression worlds (e.g. the witnesses of listed known findings) run with every check
+        for n, spec in enumerate(getattr(prop, "PINNED", [])):
+            spec = json.loads(json.dumps(spec))
+            spec["_meta"] = {"property": pid, "master": master, "index": -(n + 1), "plan": 0, "hashseed": hashseed, "tier": tier, "pinned": True}
+            outcome = run_in_child(lambda: prop.execute(spec), timeout)
+            out.write("J " + json.dumps({"i": -(n + 1), "p": 0, "outcome": outcome, "spec": spec}) + "\n")
+            out.flush()
     for i in range(start, start + count):
         wseed = H(master, pid, "world", i)
         try:
